@@ -113,6 +113,22 @@ func LRHuntGen() *rapid.Generator[*Grammar] {
 			for a := 0; a < nAlts; a++ {
 				nEl := 1 + U(t, 4, "nelems")
 				var els []*Expr
+				if U(t, 4, "alttemplate") == 0 {
+					// bare shapes whose nullability and first set hang on other rules alone:
+					//   R   |   R R   |   R t?   |   ""
+					nEl = 0
+					pr := func() *Expr { return Ref(Pick(t, names, "tmplref")) }
+					switch U(t, 4, "tmplkind") {
+					case 0:
+						els = []*Expr{pr()}
+					case 1:
+						els = []*Expr{pr(), pr()}
+					case 2:
+						els = []*Expr{pr(), Opt(term())}
+					default:
+						els = []*Expr{Lit("")}
+					}
+				}
 				for e := 0; e < nEl; e++ {
 					switch k := U(t, 10, "elkind"); {
 					case k < 3:
